@@ -801,7 +801,21 @@ fn part_predicted_randomness(ctx: &mut Ctx, n: u64) {
 fn random_sketch_tamper(rng: &mut Rng64, leaf: bool) -> Tamper {
     let es = if leaf { 32 } else { 8 };
     let mask = 1u8 << rng.below(8);
-    match rng.below(9) {
+    let ones = |n: usize| -> Vec<u8> {
+        let mut v = vec![0u8; n * es];
+        for i in 0..n {
+            v[i * es] = 1;
+        }
+        v
+    };
+    match rng.below(13) {
+        // Constant (key-independent, hence non-adaptive) replacements of the round-one sketch: the combined
+        // sketch all-zero / all-one at both aggregators or at one, or both sketch SHARES zeroed. A report whose
+        // data is invalid must still not be accepted; honest data may be refused (not C04's subject).
+        9 => Tamper { items: vec![(Point::VerifierMessage(0, 0), Alter::Replace(vec![0u8; 3 * es])), (Point::VerifierMessage(0, 1), Alter::Replace(vec![0u8; 3 * es]))], swap_round: None },
+        10 => Tamper { items: vec![(Point::VerifierShare(0, 0), Alter::Replace(vec![0u8; 3 * es])), (Point::VerifierShare(0, 1), Alter::Replace(vec![0u8; 3 * es]))], swap_round: None },
+        11 => Tamper { items: vec![(Point::VerifierMessage(0, 0), Alter::Replace(ones(3))), (Point::VerifierMessage(0, 1), Alter::Replace(ones(3)))], swap_round: None },
+        12 => Tamper::one(Point::VerifierMessage(0, rng.usize_below(2)), Alter::Replace(vec![0u8; 3 * es])),
         0 | 1 => Tamper::one(Point::VerifierShare(0, rng.usize_below(2)), Alter::Xor { off: rng.usize_below(3 * es), mask }),
         2 => Tamper::one(Point::VerifierShare(1, rng.usize_below(2)), Alter::Xor { off: rng.usize_below(es), mask }),
         3 => {
